@@ -242,7 +242,7 @@ class SchemaGen:
             oc = rng.choice([None, (0, 1)])
         elif f == "wild":
             ent = ("ent", rng.choice([("ref", "tstr"), ("ref", "text"), ("ref", "tstr")]), False, val)
-            oc = rng.choice([(0, None), (0, None), (1, None), (0, 1), None, (0, 2), (1, 2)])
+            oc = rng.choice([(0, None), (0, None), (1, None)] if only else [(0, None), (0, None), (1, None), (0, 1), None, (0, 2), (1, 2)])
         else:
             ent = ("ent", rng.choice([("ref", "uint"), ("ref", "int"), ("ref", "bstr"), ("ref", "any"), ("range", 1, 3, True)]), False, val)
             oc = rng.choice([(0, None), (1, None), (0, 1), None, (0, 2)])
@@ -264,7 +264,7 @@ class SchemaGen:
             if self.o.cbor and self.rng.random() < 0.3:
                 # a wildcard over a key class disjoint from the text keys may stand anywhere
                 kt = self.rng.choice(["uint", "int", "bstr"])
-                oc = self.rng.choice([(0, None), (1, None), (0, 1), None])
+                oc = self.rng.choice([(0, None), (1, None), (0, None)])
                 w = ("ent", ("ref", kt), False, self.ty(max(depth, 0)))
                 w = w if oc is None else ("occ", oc[0], oc[1], w)
                 self.note("mkey:disjoint-wild")
